@@ -20,4 +20,33 @@ reg(
     TRUSTED + "Unit quaternions are unit to ~1 ulp; increments with |rot| within 4 ulp above 1 are treated as ambiguous (either branch accepted).",
 )
 
+reg(
+    "C01",
+    "DESIGN.md section 4 C01",
+    "property-based testing (Hypothesis): generated edges; analytic Jacobian vs forward-mode AD of an independent reference model and vs Richardson central differences of the edge's own error",
+    "Generated-input search over all 8 edge kinds with operands from all sign/quaternion/angle/scale classes (w<0, w=0, |w| tiny, theta at +-pi, "
+    "S up to 1e6, rotated offsets): every Jacobian entry for both vertices is compared with an exact AD derivative of an independently "
+    "written error model (1e-11) and with extrapolated central differences of calc_error itself (1e-8). 3.2e4 (quick) / 9.6e5 (thorough) edges. "
+    "Sampling, not proof.",
+    TRUSTED + "SE(2) angular-error wrap and a possible SE(3) error sign flip are handled by comparing modulo the wrap/sign.",
+)
+reg(
+    "C02",
+    "DESIGN.md section 4 C02",
+    "property-based testing (Hypothesis): differential against an independent Hamilton/homogeneous-matrix measurement model; metamorphic chi2 relations (zero, displacement, PSD, linearity)",
+    "Generated-input search: calc_error / calc_chi2 / Graph.calc_chi2 compared with an independent model on single edges (8 kinds, information "
+    "SPD with cross terms, PSD-singular, indefinite, diagonal, cond up to 1e8) and small graphs (1..12 edges, arbitrary ids); zero chi2 for "
+    "measurements computed from the reference relative pose, exact d^T Omega d for displaced measurements, non-negativity for PSD, linearity in Omega.",
+    TRUSTED + "SE(3) rotational error compared up to one global sign (sign independence is C08's subject).",
+)
+reg(
+    "C10",
+    "DESIGN.md section 4 C10",
+    "property-based testing (Hypothesis): 12 Jacobian methods x 4 pose types vs forward-mode AD of the reference operations and Richardson differences of the code's operations; documented shapes asserted",
+    "Generated-input search stratified over (method, type): documented shape, compact-rows relation for all 12 methods on every case; the drawn "
+    "method's matrix (chained with jacobian_boxplus for SE(3)/SE(2), all output rows) equals the exact manifold derivative from AD (1e-11) and "
+    "central differences (1e-8); for SE(2) also the raw-coordinate derivative. >=1000 cases per (method,type) pair in quick.",
+    TRUSTED + "For SE(3) only tangent directions are claimed (radial quaternion direction is implementation-specific).",
+)
+
 NOT_YET = {}
